@@ -274,7 +274,7 @@ def run_stream(ctx, corr, bases=None):
         impl, _, _, _, _ = run_events(ctx, exe, pre_docs)
         seen = {}
         for (lab, b, _), out in zip(pre_docs, impl):
-            R = [l for l in out if l.startswith("R ")]
+            R = [l for l in out if l.startswith("R ") and len(l.split()) == 7]
             if R:
                 key = (R[-1].split()[1], b.rstrip().endswith(b">"))
                 seen.setdefault(key, b)
@@ -319,7 +319,7 @@ def run_stream(ctx, corr, bases=None):
     states = set()
     for i, (label, b, k, expect) in enumerate(docs):
         out = impl[i]
-        R = [l for l in out if l.startswith("R ")]
+        R = [l for l in out if l.startswith("R ") and len(l.split()) == 7]      # a crash may cut the last line
         O = [l for l in out if l.startswith("O ")]
         for l in R:
             states.add(l.split()[1])
